@@ -338,7 +338,9 @@ def judge_pre(snap, bump, tolmode=False):
     if not (1 <= nl <= len(order)) or any(a != advs[nl - 1] for a in advs[nl - 1:]):
         out.append({"mech": "pre_numberOfHMetrics", "detail": {"stored": nl, "advances": advs}})
     elif nl > 1 and advs[nl - 2] == advs[nl - 1]:
-        bump("pre_long_metrics_not_minimal")
+        # the count the metrics table implies is the smallest one (what a binary stores)
+        out.append({"mech": "pre_numberOfHMetrics_not_minimal", "detail": {
+            "stored": nl, "advances": advs}})
     nb = [b for b in boxes.values() if b is not None]
     union = ((min(b[0] for b in nb), min(b[1] for b in nb), max(b[2] for b in nb),
               max(b[3] for b in nb)) if nb else (0, 0, 0, 0))
@@ -354,6 +356,9 @@ def judge_pre(snap, bump, tolmode=False):
         nl = vh["numberOfVMetrics"]
         if not (1 <= nl <= len(order)) or any(a != hs[nl - 1] for a in hs[nl - 1:]):
             out.append({"mech": "pre_numberOfVMetrics", "detail": {"stored": nl, "heights": hs}})
+        elif nl > 1 and hs[nl - 2] == hs[nl - 1]:
+            out.append({"mech": "pre_numberOfVMetrics_not_minimal", "detail": {
+                "stored": nl, "heights": hs}})
         # tsb + yMax is the glyph's vertical origin: bottom bearing and extent follow from it
         bsbs, yext, tsbs = [], [], []
         for n in order:
@@ -799,6 +804,6 @@ def classify(v, case):
                 return "notdef_codepoint_in_cmap"
     if (v["mech"] == "compile_exception" and "tx:" in tr and case["fmt"] == "cff2"
             and case["opts"].get("optimizeCFF", 2) >= 2
-            and not any(g["contours"] for g in case["ufo"]["glyphs"])):
+            and not any(len(c) > 1 for g in case["ufo"]["glyphs"] for c in g["contours"])):  # no path: tx discards single-point contours
         return "cffsubr_cff2_all_glyphs_empty"
     return None
